@@ -14,7 +14,9 @@ def main():
     notes = sys.argv[5] if len(sys.argv) > 5 and not sys.argv[5].startswith('--') else None
     tier = 'quick'
     wt = '/tmp/evalwt-%s' % sid
-    env = dict(os.environ, CARGO_NET_OFFLINE='true', CARGO_TARGET_DIR='/tmp/evalwt-target')
+    env = dict(os.environ, CARGO_NET_OFFLINE='true')
+    if not demo.endswith('.sh'):
+        env['CARGO_TARGET_DIR'] = '/tmp/evalwt-target'
     sh(['git', '-C', '/repo', 'worktree', 'remove', '--force', wt])
     rc, out = sh(['git', '-C', '/repo', 'worktree', 'add', '--detach', wt, 'HEAD'])
     meta = {'seed': sid, 'property': prop, 'base_commit': sh(['git', '-C', '/repo', 'rev-parse', 'HEAD'])[1].strip()}
@@ -26,14 +28,23 @@ def main():
             return meta
         rc, out = sh(['cargo', 'test', '--offline'], cwd=wt, env=env)
         meta['suite_passes_with_change'] = 'test result: ok. 68 passed' in out
-        os.makedirs(os.path.join(wt, 'tests'), exist_ok=True)
-        shutil.copy(demo, os.path.join(wt, 'tests', 'seed_demo.rs'))
-        rc, out = sh(['cargo', 'test', '--offline', '--test', 'seed_demo'], cwd=wt, env=env)
-        meta['demo_fails_with_change'] = rc != 0 and 'FAILED' in out
-        sh(['git', 'apply', '-R', os.path.abspath(patch)], cwd=wt)
-        rc, out = sh(['cargo', 'test', '--offline', '--test', 'seed_demo'], cwd=wt, env=env)
-        meta['demo_passes_without_change'] = rc == 0
-        os.remove(os.path.join(wt, 'tests', 'seed_demo.rs'))
+        if demo.endswith('.sh'):
+            rc, out = sh(['bash', os.path.abspath(demo)], cwd=wt, env=env)
+            meta['demo_fails_with_change'] = rc != 0
+            sh(['git', 'apply', '-R', os.path.abspath(patch)], cwd=wt)
+            rc, out = sh(['bash', os.path.abspath(demo)], cwd=wt, env=env)
+            meta['demo_passes_without_change'] = rc == 0
+        else:
+            os.makedirs(os.path.join(wt, 'tests'), exist_ok=True)
+            shutil.copy(demo, os.path.join(wt, 'tests', 'seed_demo.rs'))
+            rc, out = sh(['cargo', 'test', '--offline', '--test', 'seed_demo'], cwd=wt, env=env)
+            meta['demo_fails_with_change'] = rc != 0 and ('FAILED' in out or 'panicked' in out)
+            sh(['git', 'apply', '-R', os.path.abspath(patch)], cwd=wt)
+            rc, out = sh(['cargo', 'test', '--offline', '--test', 'seed_demo'], cwd=wt, env=env)
+            meta['demo_passes_without_change'] = rc == 0
+            os.remove(os.path.join(wt, 'tests', 'seed_demo.rs'))
+        sh(['git', 'checkout', '--', '.'], cwd=wt)
+        sh(['git', 'clean', '-fdq', '-e', 'target'], cwd=wt)
         sh(['git', 'apply', os.path.abspath(patch)], cwd=wt)
         evd = '/tmp/evalev-%s' % sid
         env2 = dict(os.environ, VERIF_REPO=wt, VERIF_EVIDENCE_DIR=evd, CARGO_NET_OFFLINE='true')
@@ -51,7 +62,7 @@ def main():
         d = '/verif/seeded/%s' % sid
         os.makedirs(d, exist_ok=True)
         shutil.copy(patch, os.path.join(d, 'patch.diff'))
-        shutil.copy(demo, os.path.join(d, 'demo.rs'))
+        shutil.copy(demo, os.path.join(d, 'demo' + os.path.splitext(demo)[1]))
         if notes and os.path.exists(notes):
             meta['needs'] = open(notes).read()[:1500]
         json.dump(meta, open(os.path.join(d, 'meta.json'), 'w'), indent=1)
